@@ -87,7 +87,7 @@ impl BlindingFactor {
 //@   rewrite `let secp = static_secp_instance();\n\tlet secp = secp.lock();` => `let secp = secp_instance();`
 //@   rewrite `e.into()` => `e` x?
 //@   ensures:
-//@+    r == Ok::<BlindingFactor, Error>(if keys_of(positive@).len() == 0 { sp_zero() } else { sum_or_zero(keys_of(positive@), keys_of(negative@)) }),
+//@+    r == Ok::<BlindingFactor, Error>(if keys_of(positive@).len() == 0 && keys_of(negative@).len() == 0 { sp_zero() } else { sum_or_zero(keys_of(positive@), keys_of(negative@)) }),
 //@ end
 //@ extract core/src/core/transaction.rs :: fn deaggregate
 //@   block `let total_kernel_offset = ` lifted_ok_as `fn deagg_offset(mk_tx: &Transaction, tx: &Transaction, kernel_offsets: Vec<BlindingFactor>) -> Result<BlindingFactor, Error>`
